@@ -2,4 +2,4 @@ from . import numeric
 def run(tier, seed):
     return numeric.run("C16", tier, seed, lambda e, i: True,
         "cells = Strata.tla PlanOf(C16): {biinvariant, average, frechet_left, frechet_right} x cloud kind {1,2,3,10,(50) points, identical points, empty} x centre cell (incl. rotation pi-1e-2..pi) x group; each with a permuted, a left- and a right-translated copy; distinct = (group, scalar, routine/kind/stratum)",
-        module="AlgoTrace", subsample=2)
+        module="AlgoTrace")
